@@ -17,7 +17,10 @@ def part(base_pid, clauses, required):
 
 
 _parts = [
-    part("C05", ["C13_QueueSound", "C13_QueueComplete", "C13_OnceOnTime", "C13_NoHalt"], ["refund"]),
+    # the farm_lifecycle scenario scripts, on every run, several pools due at one height (one exactly used up,
+    # one with one of two denoms used up, one never staked, one destroyed in that very block)
+    part("C05", ["C13_QueueSound", "C13_QueueComplete", "C13_OnceOnTime", "C13_NoHalt"],
+         ["refund", "refund_many", "refund_zero", "refund_many_one_zero", "refund_and_destroy_sameblock"]),
 ]
 try:
     from propdefs_htlc import C13_CLAUSES_HTLC  # noqa
